@@ -17,6 +17,7 @@
  *   audio <path>       raw int16 mono samples
  *   start | end        decoder_start_utt / decoder_end_utt
  *   proc <n>           feed the next n samples
+ *   procfull <n>       feed the next n samples in one call with full_utt = TRUE
  *   (bp=2: light request for position sweeps: lattice + FSG only, no history dump, no search passes)
  *   lat <tag> <k> <bp> [ops]  request + dump the lattice; k N-best entries; bp=1: bestpath + posterior too;
  *                      ops: a history of further calls on the same lattice (see run_history)
@@ -46,10 +47,13 @@ static void hexs(const char *s)
     vf_print_hex(stdout, (const unsigned char *)s, strlen(s));
 }
 
+static void drop_held(void);
+
 static void cmd_newdec(char **w, int n)
 {
     config_t *cfg;
     int i, have_hmm = 0;
+    drop_held();
     if (dec) { decoder_free(dec); dec = NULL; }
     cfg = config_init(NULL);
     for (i = 1; i < n; i++) {
@@ -75,6 +79,30 @@ static void cmd_audio(const char *path)
     n_audio = fread(audio, 2, sz / 2, f);
     fclose(f);
     printf("audio %zu\n", n_audio);
+}
+
+/* the lattice handed out by the previous request of this utterance, retained so that its address cannot be
+ * recycled: a later request at the same frame count (no new audio searched in between — e.g. on the other side
+ * of decoder_end_utt when that flushed nothing) must return this very object */
+static lattice_t *held_dag;
+static int held_frames;
+static void drop_held(void) { if (held_dag) { lattice_free(held_dag); held_dag = NULL; } }
+
+/* the whole remaining audio (up to n samples) in ONE call with full_utt = TRUE: everything is searched inside
+ * the call, decoder_end_utt has nothing left to flush */
+static void cmd_procfull(int n)
+{
+    int rv;
+    size_t k = (size_t)n;
+    fsg_search_t *fs = (fsg_search_t *)dec->search;
+    int16 *ib;
+    if (audio_pos + k > n_audio) k = n_audio - audio_pos;
+    ib = (int16 *)malloc(sizeof(int16) * (k + 1));
+    memcpy(ib, audio + audio_pos, sizeof(int16) * k);
+    rv = decoder_process_int16(dec, ib, k, 0, 1);
+    free(ib);
+    audio_pos += k;
+    printf("procfull %d %zu %d\n", rv, k, fs ? fs->frame : -99);
 }
 
 static void cmd_proc(int n)
@@ -242,6 +270,11 @@ static void cmd_lat(const char *tag, int k, int bp, char *ops)
     /* keep the first object alive so that a cache miss shows up as "not the same object" rather than as a
      * use of the freed lattice */
     lattice_retain(dag);
+    if (held_dag)
+        printf("K held_frames=%d now_frames=%d same_as_held=%d\n", held_frames, (int)dag->n_frames, held_dag == dag ? 1 : 0);
+    drop_held();
+    held_dag = lattice_retain(dag);
+    held_frames = dag->n_frames;
     dag2 = decoder_lattice(dec);
     index_lattice(dag, &x);
     printf("G nframes=%d api_nframes=%d nnodes=%d nlinks=%d start=%d end=%d same=%d n_nodes_field=%d final_ascr=%d silwid=%d\n",
@@ -446,7 +479,8 @@ int main(int argc, char **argv)
             else printf("fsgfile %d\n", decoder_set_fsg(dec, fsg));
         }
         else if (!strcmp(w[0], "audio") && n == 2) cmd_audio(w[1]);
-        else if (!strcmp(w[0], "start")) { audio_pos = 0; printf("start %d\n", decoder_start_utt(dec)); }
+        else if (!strcmp(w[0], "start")) { drop_held(); audio_pos = 0; printf("start %d\n", decoder_start_utt(dec)); }
+        else if (!strcmp(w[0], "procfull") && n == 2) cmd_procfull(atoi(w[1]));
         else if (!strcmp(w[0], "proc") && n == 2) cmd_proc(atoi(w[1]));
         else if (!strcmp(w[0], "end")) {
             fsg_search_t *fs = (fsg_search_t *)dec->search;
@@ -458,6 +492,7 @@ int main(int argc, char **argv)
         else printf("bad-op\n");
         fflush(stdout);
     }
+    drop_held();
     if (dec) decoder_free(dec);
     free(audio);
     return 0;
